@@ -66,14 +66,16 @@ def sweep(ctx, n):
                         if np.max(np.abs(ref_)) > 0:
                             err = max(err, rel(g_(grid, gobs), ref_))
             elif kind == "cuboid-mesh-tetra-triangles":
-                dim = nps.uniform(0.5, 2, 3)
+                # in metres, millimetres, micrometres … (the same body in small numbers: volumes and determinants of the parts are tiny)
+                lsc = 10.0 ** rng.choice([0, 0, -3, -4, -6, 2])
+                dim = nps.uniform(0.5, 2, 3) * lsc
                 cub = magpy.magnet.Cuboid(dimension=dim, polarization=pol)
                 v = np.array([[x, y, z] for x in (-1, 1) for y in (-1, 1) for z in (-1, 1)]) * dim / 2
                 mesh = magpy.magnet.TriangularMesh.from_ConvexHull(points=v, polarization=pol)
                 tets = [[0, 1, 3, 7], [0, 1, 5, 7], [0, 2, 3, 7], [0, 2, 6, 7], [0, 4, 5, 7], [0, 4, 6, 7]]
                 tet = magpy.Collection(*[magpy.magnet.Tetrahedron(vertices=v[t], polarization=pol) for t in tets])
                 tris = mesh.to_TriangleCollection()
-                obs = np.concatenate([far_points(nps, 3, lo=1.5, hi=5), nps.uniform(-0.3, 0.3, (2, 3)) * dim])
+                obs = np.concatenate([far_points(nps, 3, lo=1.5, hi=5) * lsc, nps.uniform(-0.3, 0.3, (2, 3)) * dim])
                 ref = get(cub, obs)
                 err = max(rel(get(mesh, obs), ref), rel(get(tet, obs), ref), rel(magpy.getH(tris, obs), magpy.getH(cub, obs)))
             elif kind == "cylinder-segments":
